@@ -51,3 +51,5 @@ def run(ctx):
     _b.check_updates(ctx, 'C11.RU', 'C11')
     from .. import boundaries as _b
     _b.check_amounts(ctx, 'C11.RA', 'C11')
+    from .. import boundaries as _b
+    _b.check_counts(ctx, 'C11.RQ', 'C11')
